@@ -244,6 +244,11 @@ def gen_data(kind, T, N, dseed):
         per = 4 + rng.randint(5)
         for k in range(N):
             d[:, k] = np.sin(2 * np.pi * tt / per + k * np.pi / 3.0) + 0.01 * k * tt / T
+    elif kind == "smooth":
+        # neighbouring cells of a smooth field: one common signal plus 2 % independent noise per series - strongly
+        # collinear (condition number of the correlation matrix 1e3 .. 1e5), still far from singular
+        sgn = rng.randn(T)
+        d = sgn[:, None] + 0.02 * rng.randn(T, N)
     elif kind == "mixed":
         d[:, 0] = np.round(d[:, 0])
         if N >= 3:
@@ -1828,6 +1833,9 @@ def build_cases(tier, seed):
                                   "n_bins": int(rng.choice([2, 3, 8, 32])), "sseed": ds(),
                                   "rel": rel if sur == "shuffle" else 0})
                 # climate classes
+                if 40 <= T <= 400 and N <= 8 and len(cases) % 3 == 0:
+                    cases.append({"family": "clim", "cls": "PartialCorrelationClimateNetwork", "cycle": 1, "winter_only": False,
+                                  "data": {"kind": "smooth", "T": T, "N": N, "dseed": ds()}, "rel": 0})
                 if T >= 6 and T <= 400:
                     for cls in CLIMATE:
                         cyc = int(rng.choice([1, 2])) if T >= 8 else 1
